@@ -130,7 +130,7 @@ def worker(ctx):
         fh.write("proto lib\nconst N = 3\nenum Thing : uint3 { THING_A = 0 }\nmessage Mess { Thing t = 1 }\n")
     anchor = os.path.join(workdir, "fuzz.bitproto")
     open(anchor, "w").write("proto fuzz\n")
-    signal.signal(signal.SIGALRM, _alarm)
+    signal.signal(signal.SIGPROF, _alarm)  # CPU-time watchdog: independent of how loaded the machine is
 
     seeds = []  # token lists of valid schemas
 
@@ -150,7 +150,7 @@ def worker(ctx):
         res.count("inputs:" + origin)
         for attempt in (1, 2):
             t0 = time.time()
-            signal.setitimer(signal.ITIMER_REAL, 10.0)
+            signal.setitimer(signal.ITIMER_PROF, 20.0)
             try:
                 with sut_compiler.quiet_stderr():
                     proto = parse_string(text, filepath=anchor)
@@ -165,7 +165,7 @@ def worker(ctx):
                 return None
             except Timeout:
                 if attempt == 2:
-                    res.violation("hang", f"parse did not return within 10 s twice for a {len(text)}-character input from {origin}", {"input": text[:4000], "origin": origin})
+                    res.violation("hang", f"parse did not return within 20 s of CPU time twice for a {len(text)}-character input from {origin}", {"input": text[:4000], "origin": origin})
                 continue
             except BaseException as e:
                 tb = traceback.format_exc()
@@ -173,7 +173,7 @@ def worker(ctx):
                               {"input": text[:4000], "origin": origin, "traceback": tb[-1500:]})
                 return None
             finally:
-                signal.setitimer(signal.ITIMER_REAL, 0)
+                signal.setitimer(signal.ITIMER_PROF, 0)
                 dt = time.time() - t0
                 if dt > ctx.res.counters.get("slowest_ms", 0) / 1000.0:
                     ctx.res.counters["slowest_ms"] = int(dt * 1000)
@@ -249,7 +249,6 @@ def worker(ctx):
             accepted_rendered += 1
             render_all(proto, text, origin)
     if not ctx.quick:
-        ctx.set_budget(3400)
         atheris_tier(ctx, workdir, seeds, 1200)
     # CLI: a traceback must never reach stderr (sample)
     samples = [("proto x\nconst A = 1 / 0\n", "div0"), ("proto x\nmessage M { import \"lib.bitproto\" }\n", "import-in-message"),
@@ -319,7 +318,7 @@ if __name__ == "__main__":
               "odd widths, huge numbers, bad escapes, unterminated strings, division by zero; character-level mutations of the same texts (valid "
               "Unicode text only); random token strings; truncation at every kind of token boundary; hostile structured shapes (400-component dotted "
               "names, 120-deep message nesting, 400-deep parentheses, 2000-term expressions, 5000-digit numbers, 300-field messages, empty/500-member "
-              "enums, alias chains); every accepted text is rendered for c, go, py and (when traditional) c -O, go -O; a 10 s alarm per input (twice "
+              "enums, alias chains); every accepted text is rendered for c, go, py and (when traditional) c -O, go -O; a 20 s CPU-time alarm per input (twice "
               "before a hang is reported); the real CLI is sampled for tracebacks; an evaluation = one input text; distinct_nontrivial counts accepted "
               "inputs that were rendered plus distinct parser error classes provoked"),
         assumptions=["inputs are Python str (decodable text); an import of a missing file is an OSError and allowed",
